@@ -47,6 +47,24 @@ func betweenValues() []TV {
 
 const c17Rule = "every value shape of the universe (all scalar kinds, typed slices incl. empty and typed-nil, []interface{} mixes with nil / nested / bool elements, arrays, maps, pointers, channels, funcs, structs, complex, untyped nil) x {common, number, string-hash, number-range} x {ParseValue, ParseAssign}; a zoo of numeric/decimal/malformed strings, extreme integers and floats; range descriptions (well formed, malformed, step<=0 under a 2 s / 600 MB guard in a child process); ParseIntergers/ParseIntegerNumber/NilInterface/ParseAcMatchDict/BuildAcMatchContent on all shapes; ParseRange for GT/LT/Between/unknown operator on all shapes and on between pairs of every typing; end-to-end: every accepted value indexed on a field using that parser/container and queried with the values it denotes. Non-trivial = the value is accepted (ids/values produced); distinct = distinct input"
 
+// denseAllocatorCases: the common parser with the library's dense id allocator (set through the exported field): the
+// first text a parser ever sees gets id 0 -- accepted at indexing time, it must be matched at query time in every
+// assignment shape (include and exclude), and a text that is not indexed must match nothing in any shape
+func denseAllocatorCases(add func(in interface{})) {
+	for _, kind := range []string{"kgroups", "compact"} {
+		c := eCase{Kind: kind, Policy: "error", Parsers: map[int]string{0: "dense", 1: "dense"}}
+		c.Docs = []eDoc{
+			{ID: 1, Cons: []eConj{{{F: 0, Inc: true, V: tvStr("beijing")}}}},
+			{ID: 2, Cons: []eConj{{{F: 0, Inc: true, V: tvSlice("[]string", tvStr("beijing"), tvStr("shanghai"))}, {F: 1, Inc: true, V: tvInt("int", 7)}}}},
+			{ID: 5, Cons: []eConj{{{F: 0, Inc: false, V: tvStr("beijing")}, {F: 1, Inc: true, V: tvSlice("[]int", tvInt("int", 7), tvInt("int", 8))}}}},
+		}
+		for _, v := range []TV{tvStr("beijing"), tvSlice("[]string", tvStr("beijing")), tvList(tvStr("beijing")), tvStr("shanghai"), tvStr("nowhere"), tvSlice("[]string", tvStr("nowhere"), tvStr("beijing")), tvList(tvStr("nowhere")), tvList(tvStr("nowhere"), tvInt("int", 5)), tvList(tvInt("int", 9))} {
+			c.Queries = append(c.Queries, eQuery{A: []eAssign{{F: 0, V: v}}}, eQuery{A: []eAssign{{F: 0, V: v}, {F: 1, V: tvInt("int", 7)}}}, eQuery{A: []eAssign{{F: 0, V: v}, {F: 1, V: tvSlice("[]int", tvInt("int", 7))}}})
+		}
+		add(c)
+	}
+}
+
 func init() {
 	props["C17"] = &propDef{
 		header:    "From BE Require Import Corr.CheckC17.",
@@ -80,20 +98,7 @@ func init() {
 					add(pIn{K: "range", Op: op, V: v})
 				}
 			}
-			// the common parser with the dense id allocator: the first text a parser ever sees gets id 0 -- accepted at
-			// indexing time, it must be matched at query time in every assignment shape (include and exclude)
-			for _, kind := range []string{"kgroups", "compact"} {
-				c := eCase{Kind: kind, Policy: "error", Parsers: map[int]string{0: "dense", 1: "dense"}}
-				c.Docs = []eDoc{
-					{ID: 1, Cons: []eConj{{{F: 0, Inc: true, V: tvStr("beijing")}}}},
-					{ID: 2, Cons: []eConj{{{F: 0, Inc: true, V: tvSlice("[]string", tvStr("beijing"), tvStr("shanghai"))}, {F: 1, Inc: true, V: tvInt("int", 7)}}}},
-					{ID: 5, Cons: []eConj{{{F: 0, Inc: false, V: tvStr("beijing")}, {F: 1, Inc: true, V: tvSlice("[]int", tvInt("int", 7), tvInt("int", 8))}}}},
-				}
-				for _, v := range []TV{tvStr("beijing"), tvSlice("[]string", tvStr("beijing")), tvList(tvStr("beijing")), tvStr("shanghai"), tvStr("nowhere"), tvSlice("[]string", tvStr("nowhere"), tvStr("beijing"))} {
-					c.Queries = append(c.Queries, eQuery{A: []eAssign{{F: 0, V: v}}}, eQuery{A: []eAssign{{F: 0, V: v}, {F: 1, V: tvInt("int", 7)}}}, eQuery{A: []eAssign{{F: 0, V: v}, {F: 1, V: tvSlice("[]int", tvInt("int", 7))}}})
-				}
-				add(c)
-			}
+			denseAllocatorCases(add)
 			rangeSplitCases(add) // kept intervals split by later ones: every accepted range stays matched by what it denotes
 			// end to end: accepted => matchable.  One document per value; queries with candidate values.
 			cands := []int64{0, 1, 2, 3, 5, 7, 8, 9, 10, -3, 4, 127, 255, 1000, 2000, 64, 100, -15, -17, 11, 1500, 250, 15}
